@@ -32,7 +32,9 @@ RULE = ("(area, gmax, dgdt, dt) drawn log-uniformly (Hypothesis float exponents,
         "non-zero x and y increments. distinct = distinct parameter tuple.")
 ASSUMPTIONS = [
     "waveform length is capped at 2e5 samples (spokes: 2e4 per lobe) by bounding the last drawn parameter: "
-    "(4*gmax/dgdt + area/gmax)/dt + 16 <= cap; the corner of the box with long plateaus AND small dt is not visited",
+    "(4*gmax/dgdt + area/gmax)/dt + 16 <= cap; the corner of the box with long plateaus AND small dt is not visited. "
+    "Each case draws its own target length from {200, 2e3, 2e4, 2e5} (spokes lobes {300, 3e3, 2e4}) so that most "
+    "waveforms are short; where the box cannot meet the target the bound falls back to the box edge (<= 2e5 always)",
     "the waveform is the flattened first return value ((1,N) array); only positive areas are generated",
     "slew is measured between consecutive returned samples only; the implicit steps into/out of the waveform are "
     "covered by requiring the first and last sample to be 0 (|g0|,|gN| <= 1e-9*gmax)",
@@ -481,7 +483,7 @@ def check_spokes(case):
 
 
 PARTS = [
-    Part("trap_grad", check_trap, {"quick": 24000, "thorough": 400000}, strategy=st_trap),
-    Part("min_trap", check_mintrap, {"quick": 24000, "thorough": 400000}, strategy=st_mintrap),
-    Part("spokes", check_spokes, {"quick": 8000, "thorough": 120000}, strategy=st_spokes),
+    Part("trap_grad", check_trap, {"quick": 20000, "thorough": 400000}, strategy=st_trap),
+    Part("min_trap", check_mintrap, {"quick": 20000, "thorough": 400000}, strategy=st_mintrap),
+    Part("spokes", check_spokes, {"quick": 6000, "thorough": 120000}, strategy=st_spokes),
 ]
